@@ -1,5 +1,3 @@
-//go:build wip
-
 package props
 
 // C08 — go.mod and go.work edit operations do what a simple set/map model says.
